@@ -94,6 +94,7 @@ theorem pres_cleanupAfterFailure (fi p k) : Pres (cleanupAfterFailure fi p k) :=
 macro_rules | `(tactic| pres_lemma) => `(tactic| with_reducible apply pres_cleanupAfterFailure)
 theorem pres_withNewUuid {α} (p w) (body : String → M α) (hb : ∀ k, Pres (body k)) : Pres (withNewUuid p w body) := by
   unfold withNewUuid; repeat' (first | exact hb _ | pres_step)
+macro_rules | `(tactic| pres_lemma) => `(tactic| with_reducible apply pres_withNewUuid)
 theorem pres_matchXtypeGeneric (t h) : Pres (matchXtypeGeneric t h) := by unfold matchXtypeGeneric; pres_auto
 macro_rules | `(tactic| pres_lemma) => `(tactic| with_reducible apply pres_matchXtypeGeneric)
 theorem pres_matchXtype (t r h) : Pres (matchXtype t r h) := by unfold matchXtype; pres_auto
